@@ -134,3 +134,6 @@ PROPS["C14"]["rule"] += (" C14B <trailer md>: the raw trailer block of a gRPC-we
 PROPS["C14"]["trusted"] = list(PROPS["C14"].get("trusted", [])) + [
     "net/http Header.Write (sorted keys, CR / LF -> space, TrimString) is transcribed in Model/TrailerBlock.v: a library function, modelled; tied to "
     "the real bytes by the C14B cases"]
+PROPS["C05"]["rule"] += " Shape flags ^h (the handler sends its header explicitly before it returns), ^u (http-proto: the detail is an Any of a type the server does not know; the binary report carries it), ^t (grpc / web / web-text with Grpc-Timeout 30m: the handler waits for the end of its context and returns its own status)."
+PROPS["C15"]["rule"] += " C15T <hex> d: every fifth case on a request whose context already carries a deadline 2^62 ns away."
+PROPS["C14"]["rule"] += " Proto grpc+l: the call carries Grpc-Timeout 20m and the handler sets its metadata after its context has ended."
